@@ -131,7 +131,7 @@ def k_setter(base, chk, meth, n, spec_lf, spec_py, accept_py=lambda b: True, can
         chk.fact("Scalar.%s: reject path returns (nil, error), receiver and input unwritten" % meth,
                  p.outcome[1][0] is None and not any(w[0] == "w" and w[1] in (s.obj, boid) for w in p.log), [fname])
     if canonical:
-        chk.fact("Scalar.SetCanonicalBytes: accepts exactly when isReduced (1 accepting + 1 rejecting path)", len(acc) == 1 and len(rej) == 1, [fname])
+        chk.soft("Scalar.SetCanonicalBytes: accepts exactly when isReduced (1 accepting + 1 rejecting path)", len(acc) == 1 and len(rej) == 1, [fname])
     # preconditions of the fiat functions used (inputs below l), decided per call site
     for i, (what, v, pth) in enumerate(h.st["pre"]):
         t0 = time.time()
@@ -183,7 +183,7 @@ def k_bytes(base, chk):
     ok = ok and all(isinstance(c, absmodes.Abs) and c.tag == ("byte", i) and c.v.key() == LF.of(sv).key() for i, c in enumerate(cells))
     chk.fact("Scalar.Bytes: out[i] = byte i of FromMontgomery(s) for i=0..31 (little endian), i.e. the 32-byte little-endian value in [0,l) (contracts S-frommont: eval<l, *R = s; S-tobytes)", ok, [fname])
     chk.fact("Scalar.Bytes: buffer allocated by the call; receiver not written", h.ex.meta[sl.obj].kind in ("heap", "stack") and not any(w[0] == "w" and w[1] == s.obj for w in p.log), [fname])
-    chk.fact("Scalar.Bytes: calls FromMontgomery then ToBytes", h.st["calls"] == ["FromMontgomery", "ToBytes"], [fname])
+    chk.soft("Scalar.Bytes: calls FromMontgomery then ToBytes", h.st["calls"] == ["FromMontgomery", "ToBytes"], [fname])
 
 
 def run(chk):
@@ -221,6 +221,19 @@ def run(chk):
     chk.samples = [o.j() for o in chk.obs if "value =" in o.name][:6]
 
 
+def bytes_battery(chk):
+    from sym import native
+    import random
+    rng = random.Random(chk.seed)
+    R = 2**256
+    vals = [0, 1, L - 1, L - 2, 2**252, 2**252 - 1, 2**128] + [rng.randrange(L) for _ in range(30)]
+    res = native.run_ops("", [{"op": "S.Bytes", "args": ["s"], "init": {"s": "w:" + ",".join(str(((v * R % L) >> (64 * i)) & (2**64 - 1)) for i in range(4))}} for v in vals])
+    for v, r in zip(vals, res):
+        if r.get("bytes") != v.to_bytes(32, "little").hex():
+            return dict(what="Scalar.Bytes of %d = %s" % (v, r.get("bytes")), op="S.Bytes", inputs=dict(s=str(v)))
+    return None
+
+
 def safety_net(chk):
-    return (setter_replay(chk, "SetCanonicalBytes", 32, lambda b: int.from_bytes(b, "little"), lambda b: int.from_bytes(b, "little") < L)
+    return bytes_battery(chk) or (setter_replay(chk, "SetCanonicalBytes", 32, lambda b: int.from_bytes(b, "little"), lambda b: int.from_bytes(b, "little") < L)
             or setter_replay(chk, "SetUniformBytes", 64, lambda b: int.from_bytes(b, "little")) or setter_replay(chk, "SetBytesWithClamping", 32, clamp_py))
